@@ -302,6 +302,8 @@ RulesPoll(a, o) ==
     <<"C16.poll.foreign",  (~mine) => (o.class = "json" /\ o.status >= 400)>>,
     <<"C05.refused.doc",   (~ok) => (o.status >= 400 /\ o.doc)>> }
 
+IDTLifetime == 3600             \* seconds, ID-token lifetime of every registered client in this world
+
 \* Token references of a token-exchange request: [kind, form, id, declared]
 \*   kind (what the string really is): access | refresh | id ; declared: access | refresh | id | jwt | unknown
 LiveRef(t) ==
@@ -316,7 +318,13 @@ LiveKind(t) ==
     [] t.kind = "refresh" -> t.form = "issued" /\ LiveRT(t.id)
     [] t.kind = "id"      -> t.form = "valid" /\ Has(idts, t.id)
     [] OTHER -> FALSE
-SubOfRef(t) == CASE t.kind = "access" -> toks[t.id].sub [] t.kind = "refresh" -> rts[t.id].sub [] OTHER -> idts[t.id].sub
+\* Third-party tokens (op.TokenExchangeTokensVerifierStorage): kind extSubject / extActor, id = the user they name, declared "jwt".
+\* The storage accepts the first kind only as subject token and the second only as actor token.
+IsExt(t) == t.kind \in {"extSubject", "extActor"}
+TypeFits(t) == t.declared = t.kind \/ (IsExt(t) /\ t.declared = "jwt")
+SubjOK(t)  == LiveRef(t) \/ (t.kind = "extSubject" /\ t.declared = "jwt")
+ActorOK(t) == LiveRef(t) \/ (t.kind = "extActor" /\ t.declared = "jwt")
+SubOfRef(t) == CASE t.kind = "access" -> toks[t.id].sub [] t.kind = "refresh" -> rts[t.id].sub [] IsExt(t) -> t.id [] OTHER -> idts[t.id].sub
 
 IssuableTypes == {"access", "refresh", "id"}
 
@@ -331,23 +339,24 @@ RulesTokenExchange(a, o) ==
     \* C08: "token exchange accepts a subject or actor token only for a token the provider actually issued that is neither expired, revoked ..."
     <<"C08.exchange.subject", ok => LiveKind(a.subj)>>,
     <<"C08.exchange.actor",   (ok /\ hasActor) => LiveKind(a.actor)>>,
-    <<"C15.subject.type", ok => a.subj.declared = a.subj.kind>>,
-    <<"C15.subject.live", (ok /\ a.subj.declared = a.subj.kind) => LiveRef(a.subj)>>,
-    <<"C15.actor.type",   (ok /\ hasActor) => a.actor.declared = a.actor.kind>>,
-    <<"C15.actor.live",   (ok /\ hasActor /\ a.actor.declared = a.actor.kind) => LiveRef(a.actor)>>,
+    <<"C15.subject.type", ok => TypeFits(a.subj)>>,
+    <<"C15.subject.live", (ok /\ TypeFits(a.subj)) => SubjOK(a.subj)>>,
+    <<"C15.actor.type",   (ok /\ hasActor) => TypeFits(a.actor)>>,
+    <<"C15.actor.live",   (ok /\ hasActor /\ TypeFits(a.actor)) => ActorOK(a.actor)>>,
     <<"C15.veto",         ok => ~cfg.policy.deny>>,
     <<"C15.issuable",     ok => eff \in IssuableTypes>>,
     <<"C15.declares",     ok => o.issuedType = eff>>,
     <<"C15.contains",     ok =>
          CASE eff = "access"  -> o.at.name \notin {"none", "unknown"}
            [] eff = "refresh" -> o.at.name \notin {"none", "unknown"} /\ o.rt.name \notin {"none", "unknown"}
-           [] eff = "id"      -> o.idt.name # "none" /\ o.idt.sig = "ok"
+           \* "that token is live at the provider": an ID token that is unexpired and lives as long as the client's ID tokens do
+           [] eff = "id"      -> o.idt.name # "none" /\ o.idt.sig = "ok" /\ o.idt.fresh /\ o.idt.life >= IDTLifetime
            [] OTHER -> FALSE>>,
-    <<"C15.policy.subject", (ok /\ LiveRef(a.subj)) =>
+    <<"C15.policy.subject", (ok /\ SubjOK(a.subj)) =>
          /\ (o.at.name \notin {"none", "unknown"} => o.at.sub = wantSub /\ o.at.client = a.caller /\ Range(o.at.scopes) = wantScopes)
          /\ (o.idt.name # "none" => o.idt.sub = wantSub)
          /\ (o.rt.name \notin {"none", "unknown"} => o.rt.sub = wantSub /\ o.rt.client = a.caller)>>,
-    <<"C15.policy.actor", (ok /\ hasActor /\ LiveRef(a.actor)) => o.actor = SubOfRef(a.actor)>>,
+    <<"C15.policy.actor", (ok /\ hasActor /\ ActorOK(a.actor)) => o.actor = SubOfRef(a.actor)>>,
     \* "... yields an OAuth error": whatever is not a success is an OAuth error document with an error status
     <<"C15.refused.oauthError", (~ok) => (o.class = "json" /\ o.status >= 400 /\ o.doc)>>,
     <<"C05.refused.doc",  (~ok) => (o.status >= 400 /\ o.doc)>> }
@@ -408,7 +417,6 @@ Rules(e) ==
 -----------------------------------------------------------------------------
 (* C06: every issued token is well-formed and passes the library's own verifiers. *)
 IssuerName == "issuer"          \* abstract name of the provider's issuer (projection maps the configured issuer URL to it)
-IDTLifetime == 3600             \* seconds, ID-token lifetime of every registered client in this world
 UserClaimsOf(scopes) ==
   (IF "email" \in scopes THEN {"email", "email_verified"} ELSE {}) \cup
   (IF "profile" \in scopes THEN {"name", "preferred_username"} ELSE {}) \cup
